@@ -18,7 +18,7 @@ KANI_TARGET = os.path.join(VERIF, '.cache', 'kani-target')
 def parse_group(name):
     """-> dict(targets: {file: module_text}, harnesses: {name: meta}, contracts: [(owner, fn, file, text)])"""
     path = os.path.join(VERIF, 'units', 'kani', name + '.rs')
-    g = {'name': name, 'target': None, 'harnesses': {}, 'contracts': [], 'module': '', 'stubs_fmt': True}
+    g = {'name': name, 'target': None, 'harnesses': {}, 'contracts': [], 'module': '', 'stubs_fmt': True, 'extracts': []}
     lines = open(path).read().split('\n')
     i = 0
     mode = None
@@ -50,6 +50,13 @@ def parse_group(name):
             mode = None
         elif st == '//@module':
             mode = 'module'
+        elif st.startswith('//@extract '):
+            # //@extract <file> <Owner|-> <fn> as <newname> ;; <regex> ==> <repl> ;; ...
+            head, *rws = st[len('//@extract '):].split(' ;; ')
+            parts = head.split()
+            g['extracts'].append({'file': parts[0], 'owner': parts[1], 'fn': parts[2], 'as': parts[4],
+                                  'rws': [assemble.parse_rw(r) for r in rws]})
+            g['module'] += '//@@EXTRACT %d@@\n' % (len(g['extracts']) - 1)
         else:
             if mode == 'contract':
                 cur['text'] += ln + '\n'
@@ -85,6 +92,17 @@ def make_scratch(repo, workdir, groups):
             src = src[:at] + c['text'] + src[at:]
             open(p, 'w').write(src)
             assemble._src_cache.clear()
+    for g in groups:
+        # functions copied mechanically into the harness module (receiver-free replicas etc.)
+        for idx, ex in enumerate(g['extracts']):
+            assemble._src_cache.clear()
+            src, kind, (fname, s0, b0, e0) = assemble.locate_fn(repo, ex['file'], ex['owner'], ex['fn'])
+            text = assemble.strip_comments(src[s0:e0 + 1])
+            log = []
+            text = assemble.apply_rewrites(text, ex['rws'], log, ex['fn'])
+            text = re.sub(r'\bfn\s+' + re.escape(ex['fn']) + r'\b', 'fn ' + ex['as'], text, count=1)
+            g['module'] = g['module'].replace('//@@EXTRACT %d@@' % idx, text)
+            g.setdefault('extract_log', []).extend(log)
     for g in groups:
         p = os.path.join(crate, g['target'])
         if not os.path.exists(p):
